@@ -162,6 +162,7 @@ done:
 
 			m.chDeleteCS <- key
 		case key := <-m.chDeleteCS:
+			verifEvent("manager.deleteCS", m.nodeType, m.root, key)
 			err = m.clientUpSub[key].Unsubscribe()
 			if err != nil {
 				log.Println("Error unsubscribing subscription:", err)
